@@ -362,7 +362,11 @@ class AstToDjangoQVisitor(visitor.NodeVisitor):
         path_to_outerref, related_model = reverse_relationship(
             owner_path, self.root_model
         )
-        subquery = related_model.objects.filter(Q(**{path_to_outerref: OuterRef("pk")}))
+        # The related model's manager need not be called `objects`, and its
+        # foreign key need not point at the primary key (`to_field`):
+        subquery = related_model._default_manager.filter(
+            Q(**{path_to_outerref + "__pk": OuterRef("pk")})
+        )
         # .values(related_field.remote_field.name)
 
         if node.lambda_:
